@@ -85,12 +85,9 @@ func (f *GitFilter) copyToTemp(reader io.Reader, fileSize int64, cb tools.CopyCa
 		return
 	}
 
-	var from io.Reader = bytes.NewReader(by)
-	if fileSize < 0 || int64(len(by)) < fileSize {
-		// If there is still more data to be read from the file, tack on
-		// the original reader and continue the read from there.
-		from = io.MultiReader(from, reader)
-	}
+	// The size reported for the path is only a progress hint; the data to
+	// clean is whatever the reader still holds.
+	var from io.Reader = io.MultiReader(bytes.NewReader(by), reader)
 
 	size, err = tools.CopyWithCallback(writer, from, fileSize, cb)
 
